@@ -307,18 +307,15 @@ fn query_service_instances(
 ) -> Result<(), Box<dyn Error>> {
     log::trace!("probing service instances");
     let mut packet = Packet::new_query(0);
-    packet.questions.push(Question::new(
-        service_name.clone(),
-        TYPE::SRV.into(),
-        CLASS::IN.into(),
-        false,
-    ));
-    packet.questions.push(Question::new(
-        service_name,
-        TYPE::TXT.into(),
-        CLASS::IN.into(),
-        false,
-    ));
+    // addresses are asked for explicitly: as additional records they only come with an SRV answer
+    for qtype in [TYPE::SRV, TYPE::TXT, TYPE::A, TYPE::AAAA] {
+        packet.questions.push(Question::new(
+            service_name.clone(),
+            qtype.into(),
+            CLASS::IN.into(),
+            false,
+        ));
+    }
 
     send_packet(socket, &packet.build_bytes_vec_compressed()?, address);
 
